@@ -199,7 +199,7 @@ class Ctx:
         self.violations = []
         self.kf_seen = {}
         self.known = load_known()
-        self.workdir = os.path.join(WORK, f"{prop}-{tier}-{seed}")
+        self.workdir = os.path.join(WORK, f"{prop}-{tier}-{seed}" + ("-scratch" if os.environ.get("VERIF_HARNESS") else ""))
         shutil.rmtree(self.workdir, ignore_errors=True)
         os.makedirs(self.workdir, exist_ok=True)
         self._distinct = set()
@@ -248,7 +248,7 @@ class Ctx:
             self.known_finding(m[0], m[1])
             return False
         n = len(self.violations) + 1
-        rdir = os.path.join(ROOT, "replays", f"{self.prop}-{self.tier}-{self.seed}-{n}")
+        rdir = os.path.join(os.environ.get("VERIF_REPLAY_DIR") or os.path.join(ROOT, "replays"), f"{self.prop}-{self.tier}-{self.seed}-{n}")
         shutil.rmtree(rdir, ignore_errors=True)
         os.makedirs(rdir, exist_ok=True)
         with open(os.path.join(rdir, "what.txt"), "w") as f:
@@ -269,8 +269,9 @@ class Ctx:
         }
         if not self.cov["samples"]:
             self.cov["samples"].append("(no sample recorded)")
-        os.makedirs(os.path.join(ROOT, "evidence"), exist_ok=True)
-        with open(os.path.join(ROOT, "evidence", f"{self.prop}.json"), "w") as f:
+        evdir = os.environ.get("VERIF_EVIDENCE_DIR") or os.path.join(ROOT, "evidence")
+        os.makedirs(evdir, exist_ok=True)
+        with open(os.path.join(evdir, f"{self.prop}.json"), "w") as f:
             json.dump(ev, f, indent=1, sort_keys=True)
         if not os.environ.get("VERIF_KEEP"):
             shutil.rmtree(self.workdir, ignore_errors=True)
